@@ -524,7 +524,11 @@ func nonEmptyParam(c *Ctx, prm *ssa.Parameter, cache map[*ssa.Parameter]int, dep
 	sites := c.callersOf(fn)
 	res := len(sites) > 0 && idx >= 0 && depth < 6
 	for _, call := range sites {
-		if idx >= len(call.Call.Args) || !nonEmptyValue(c, call.Call.Args[idx], cache, depth) {
+		if idx >= len(call.Call.Args) {
+			res = false
+			continue
+		}
+		if !nonEmptyValue(c, call.Call.Args[idx], cache, depth) && !nonEmptyAt(call.Block(), call.Call.Args[idx]) {
 			res = false
 		}
 	}
@@ -575,4 +579,42 @@ func nonEmptyValue(c *Ctx, v ssa.Value, cache map[*ssa.Parameter]int, depth int)
 		return true
 	}
 	return false
+}
+
+// nonEmptyAt: the facts holding at block b establish len(v) != 0 (the call sits behind an
+// `if len(path) == 0 { return ... }` guard).
+func nonEmptyAt(b *ssa.BasicBlock, v ssa.Value) bool {
+	cv := canon(v)
+	fs := allFacts(b)
+	for _, f := range fs {
+		bo, ok := f.Cond.(*ssa.BinOp)
+		if !ok {
+			continue
+		}
+		for _, pair := range [][2]ssa.Value{{bo.X, bo.Y}, {bo.Y, bo.X}} {
+			lc, ok := pair[0].(*ssa.Call)
+			if !ok || calleeKey(&lc.Call) != "builtin len" || canon(lc.Call.Args[0]) != cv {
+				continue
+			}
+			n, ok := constInt(pair[1])
+			if !ok || n != 0 {
+				continue
+			}
+			switch bo.Op {
+			case token.EQL:
+				if !f.Pol {
+					return true
+				}
+			case token.NEQ:
+				if f.Pol {
+					return true
+				}
+			case token.GTR:
+				if f.Pol && pair[0] == bo.X {
+					return true
+				}
+			}
+		}
+	}
+	return impliesLess(linExpr{ok: true}, v, 0, ltFacts(fs))
 }
